@@ -2,6 +2,7 @@ import Orca.Gen.RefTables
 import Orca.Lemmas.Ops
 import Orca.Lemmas.Preserve
 import Orca.Lemmas.Redirect
+import Orca.Lemmas.Parsed
 import Orca.Gen.MapSites
 /-!
 # C06 — function references stay bound to the same function across edits
@@ -110,6 +111,28 @@ theorem c06_encode_refs_after_any_history (s0 : St) (h0 : StInv s0) (ops : List 
     ∨ (∃ s' why, encode s = (s', Ret.panic why) ∧ ∃ r ∈ allRefs s, Dangling s r) :=
   let h := spaceInv_after s0 h0 ops hn
   encode_spec _ h.1 h.2.1 h.2.2
+
+/-- **every parsed module satisfies the invariant**: the state `Module::parse` builds — for any import list (kinds interleaved in any
+    way) and any numbers of local functions, globals and memories, whatever the reference sites, exports and data are — satisfies it.
+    No per-case check is involved. -/
+theorem c06_invariant_of_every_parsed_module (I : List ImpEntry) (lf lg lm : List Nat) (rest : St) :
+    StInv (parsedState I lf lg lm rest) := stInv_parsedState I lf lg lm rest
+
+/-- … and the driver's check that the initial state of a generated case has that shape is sound -/
+theorem c06_parsed_shape_check_sound (s : St) (h : parsedStateB s = true) : StInv s := stInv_of_parsedStateB s h
+
+/-- `c06_encode_refs` for **every parsed module and every history**: no hypothesis that is not about the shape of the input -/
+theorem c06_encode_refs_every_module_every_history (I : List ImpEntry) (lf lg lm : List Nat) (rest : St) (ops : List Op) (hn : NoEncode ops) :
+    let s := (run (parsedState I lf lg lm rest) ops).1
+    (∃ s' F G M res st, encode s = (s', Ret.encoded F G M res st)
+        ∧ (∀ r' ∈ res ++ st.toList, ∃ r ∈ allRefs s, r'.site = r.site ∧ r'.sp = r.sp
+            ∧ ∃ u, PointsTo s r u ∧ designated F G M r' = some u))
+    ∨ (∃ s' why, encode s = (s', Ret.panic why) ∧ ∃ r ∈ allRefs s, Dangling s r) :=
+  c06_encode_refs_after_any_history _ (stInv_parsedState I lf lg lm rest) ops hn
+
+/-- non-vacuity: a table import between two function imports, one local function -/
+example : (parsedState [⟨some Sp.F, false, 1⟩, ⟨none, false, 2⟩, ⟨some Sp.F, false, 3⟩, ⟨some Sp.G, false, 4⟩] [5] [] [] {}).f.items
+    = [⟨0, true, false, 1, 0⟩, ⟨1, true, false, 3, 2⟩, ⟨2, false, false, 5, 0⟩] := by decide
 
 /-- **the id reported by `add_import_func` designates the added import — in the encoded module, after any later history** that
     neither deletes it nor replaces it by a built function (and does not encode). -/
